@@ -16,6 +16,7 @@ P(k) == TwoPow(k)
 PA0 == 12  PA3 == 13  PS1 == 14  PA4 == 15  PAbig == 16  PAself == 17
 PS0 == 18  PS3 == 19  PS3b == 20 PSbig == 21 PD0 == 22   PD2 == 23
 PSx == 24  PDfont == 25 PP0 == 26 PP1 == 27  PPself == 28 PD2b == 29
+PDd0 == 30 PDx1 == 31  PDd01 == 32 PSself == 33
 PoolHeap == <<
     ArrCellOf(<<>>),                                                    \* 12 A0
     ArrCellOf(<<IntN(1), NameV("n"), StrV(PS1, 0, 1)>>),                 \* 13 A3
@@ -34,10 +35,19 @@ PoolHeap == <<
     ArrCellOf(<<>>),                                                    \* 26 P0
     ArrCellOf(<<IntN(1), XNameV("add")>>),                              \* 27 P1
     [k |-> "arr", n |-> 1, d |-> NilV, m |-> (0 :> ProcV(PPself, 0, 1))],  \* 28 Pself
-    [k |-> "dict", m |-> ("a" :> IntN(2))]                              \* 29 D1
+    [k |-> "dict", m |-> ("a" :> IntN(2))],                             \* 29 D1
+    \* dictionaries of equal size whose keys are decimal numbers (identity of dictionaries
+    \* must not depend on their contents)
+    [k |-> "dict", m |-> ("0" :> IntN(2))],                             \* 30 {/0 2}
+    [k |-> "dict", m |-> ("x" :> IntN(1))],                             \* 31 {/x 1}
+    [k |-> "dict", m |-> ("0" :> IntN(1)) @@ ("1" :> IntN(2))],         \* 32 {/0 1 /1 2}
+    [k |-> "dict", m |-> ("self" :> DictV(PSself))]                     \* 33 a dictionary that contains itself
 >>
 \* the font directory of the base state knows one font, so that findfont can succeed
-Heap0 == [FreshHeap EXCEPT ![FontDirId] = [k |-> "dict", m |-> ("zz" :> DictV(PDfont))]] \o PoolHeap
+\* userdict defines /a, and so does the dictionary PD2b that environment 1 puts above it:
+\* name look-ups (load, where, executable names) must find the topmost definition
+Heap0 == [FreshHeap EXCEPT ![FontDirId] = [k |-> "dict", m |-> ("zz" :> DictV(PDfont))],
+                           ![UserId] = [k |-> "dict", m |-> ("a" :> IntN(5))]] \o PoolHeap
 
 \* ---- value pool (a sequence: mixed records are never put into a set)
 Ints == << IntN(0), IntN(1), IntN(-1), IntN(2), IntN(4), IntN(255), IntN(256),
@@ -52,7 +62,8 @@ Views == << ArrV(PA0, 0, 0), ArrV(PA3, 0, 3), ArrV(PA4, 0, 4), ArrV(PA4, 1, 2), 
             ArrV(PAbig, 0, 65536), ArrV(PAself, 0, 2),
             StrV(PS0, 0, 0), StrV(PS3, 0, 3), StrV(PS3b, 0, 3), StrV(PS3, 1, 1), StrV(PSbig, 0, 65536),
             StrV(PS3, 0, 2), ArrV(PA4, 0, 2) >>
-Dicts == << DictV(PD0), DictV(PD2), DictV(PDfont), DictV(UserId), DictV(PD2b), DictV(SysId) >>
+Dicts == << DictV(PD0), DictV(PD2), DictV(PDd0), DictV(PDx1), DictV(PDfont), DictV(UserId), DictV(PDd01), DictV(PSself),
+           DictV(PD2b), DictV(SysId) >>
 Procs == << ProcV(PP0, 0, 0), ProcV(PP1, 0, 2), ProcV(PPself, 0, 1) >>
 Others == << NameV("a"), NameV("zz"), NameV("abc"), XNameV("add"), BoolV(TRUE), BoolV(FALSE), MarkV, NilV,
              OpV("add"), NameV("Font"), NameV("ProcSet"), NameV("CIDInit"), NameV("b"), NameV("add"),
@@ -60,7 +71,7 @@ Others == << NameV("a"), NameV("zz"), NameV("abc"), XNameV("add"), BoolV(TRUE), 
 
 \* quick: a core selection of each class; thorough: everything
 Sel(s, k) == IF Tier = "quick" /\ Len(s) > k THEN SubSeq(s, 1, k) ELSE s
-Pool == Sel(Ints, 12) \o Sel(Reals, 4) \o Sel(Views, 11) \o Sel(Dicts, 4) \o Sel(Procs, 2) \o Sel(Others, 12)
+Pool == Sel(Ints, 12) \o Sel(Reals, 4) \o Sel(Views, 11) \o Sel(Dicts, 8) \o Sel(Procs, 2) \o Sel(Others, 12)
 NP == Len(Pool)
 \* reduced pool for the leading positions of long operand tuples
 PoolS == << IntN(0), IntN(1), IntN(2), IntV(MaxInt64), IntN(-1), ArrV(PA4, 0, 4), ArrV(PA4, 1, 2),
@@ -101,19 +112,30 @@ Val(x) == IF x < 0 THEN PoolS[0 - x] ELSE Pool[x]
 
 Dst0(e) == IF OpSet = "hostile" THEN <<SysId, UserId, CIDInitId>>
            ELSE IF e = 1 THEN <<SysId, UserId, PD2b>> ELSE FreshDictStack
-\* hostile runs of CIDInit procedures happen inside begincmap (env 1) and outside (env 0)
+\* hostile runs of CIDInit procedures happen outside begincmap (env 0), inside it (env 1) and,
+\* for the end* procedures, inside an open block of their kind with the operand tuple copied
+\* above the block's base (env 2), so that the operands are really examined
+KindOfEnd(op) == CHOOSE k \in Kinds \cup {""} : (k = "" /\ \A k2 \in Kinds : op # "end" \o k2) \/ (k # "" /\ op = "end" \o k)
+RECURSIVE CopyUp(_, _)
+CopyUp(L, j) == IF j = 0 THEN <<>> ELSE <<IntN(L - 1), XNameV("index")>> \o CopyUp(L, j - 1)
 Prog(op, e) == IF OpSet = "hostile" /\ e = 1 /\ op \in CIDInitOps THEN <<XNameV("begincmap"), XNameV(op)>>
+               ELSE IF OpSet = "hostile" /\ e >= 20 THEN
+                    <<XNameV("begincmap"), IntN(1), XNameV("begin" \o KindOfEnd(op))>> \o CopyUp(e - 20, e - 20) \o <<XNameV(op)>>
                ELSE <<XNameV(op)>>
 
 VARIABLES s, stim, phase
 vars == <<s, stim, phase>>
+EnvCode == IF stim.env = 2 THEN 20 + stim.len ELSE stim.env
 
 Init == /\ phase = "op"
         /\ stim = [op |-> "", len |-> 0, idx |-> <<>>, env |-> 0]
         /\ s = FreshState(<<>>, 0)
 PickOp == /\ phase = "op"
           \* env 1: a third dictionary on the dictionary stack (so that `end` can succeed)
-          /\ \E op \in OpSel : \E e \in (IF OpArity(op) <= 1 THEN {0, 1} ELSE {0}) :
+          \* env 2: an end* procedure of CIDInit inside an open block (hostile set only)
+          /\ \E op \in OpSel : \E e \in (IF OpArity(op) <= 1 THEN {0, 1}
+                                         ELSE IF OpSet = "hostile" /\ op \in CIDInitOps /\ KindOfEnd(op) # "" THEN {0, 1, 2}
+                                         ELSE {0}) :
                 stim' = [op |-> op, len |-> 0, idx |-> <<>>, env |-> e]
           /\ phase' = "len" /\ UNCHANGED s
 PickLen == /\ phase = "len"
@@ -124,7 +146,7 @@ PickArg == /\ phase = "arg" /\ Len(stim.idx) < stim.len
            /\ UNCHANGED <<phase, s>>
 Start == /\ phase = "arg" /\ Len(stim.idx) = stim.len
          /\ phase' = "run"
-         /\ s' = [FreshState(Prog(stim.op, stim.env), 0) EXCEPT !.ost = [j \in 1..stim.len |-> Val(stim.idx[j])],
+         /\ s' = [FreshState(Prog(stim.op, EnvCode), 0) EXCEPT !.ost = [j \in 1..stim.len |-> Val(stim.idx[j])],
                                                             !.dst = Dst0(stim.env)]
          /\ UNCHANGED stim
 Run == /\ phase = "run" /\ s.status = "running"
@@ -134,7 +156,7 @@ Next == PickOp \/ PickLen \/ PickArg \/ Start \/ Run
 
 Delta(h) == h.c
 
-Vector == [op |-> stim.op, prog |-> Prog(stim.op, stim.env),
+Vector == [op |-> stim.op, prog |-> Prog(stim.op, EnvCode),
            init |-> [j \in 1..Len(stim.idx) |-> Val(stim.idx[j])], dst0 |-> Dst0(stim.env),
            status |-> s.status, errs |-> s.errs, ost |-> s.ost, dst |-> s.dst,
            heap |-> Delta(s.heap), nheap |-> s.heap.n, nops |-> s.nops]
